@@ -316,7 +316,9 @@ fn model_map(c: &MapCase) -> BTreeMap<u16, String> {
             }
             // vary the text per code so that entries are distinguishable
             let mut t = text_of(cps);
-            t.push(char::from_u32(0x41 + (k % 26)).unwrap());
+            // even-length runs get consecutive final characters (the increment form applies), odd ones do not
+            let step = if len % 2 == 0 { 1 } else { 3 };
+            t.push(char::from_u32(0x41 + ((k * step) % 50)).unwrap());
             m.insert(code as u16, t);
         }
     }
